@@ -715,6 +715,8 @@ def sessions(ctx):
                     'MC_IncSession_reals.cfg'):
             s2c_sessions(ctx, gen_sessions(ctx, cfg), cfg[13:-4], isolate='edit' in cfg)
         s2c_sessions(ctx, gen_sessions(ctx, 'MC_IncSession_sim.cfg', simulate=600, depth=8, seed=ctx.seed + 1, workers=1), 'sim', isolate=True)
+        # ... and histories in which the caller edits an object right after the first call (simulation picks an edit only rarely)
+        s2c_sessions(ctx, gen_sessions(ctx, 'MC_IncSession_simE.cfg', simulate=400, depth=8, seed=ctx.seed + 2, workers=1), 'simE', isolate=True)
 
 
 def run(ctx):
